@@ -18,11 +18,11 @@ BASE = ["src/configuration.c", "src/configfile.c", "src/util/parser.c", "src/uti
         "src/genericregistry.c", "src/init-deinit.c", "src/inputdatastorage.c"]
 
 
-def hq(name, variant, nopt, vlen, timeout=900):
+def hq(name, variant, nopt, vlen, timeout=900, outputs=False):
     units = BASE + (["src/tsrm.c", "src/util/list.c"] if variant == "TS" else [])
     models = ("vlibc.c", "vthread.c") if variant == "TS" else ("vlibc.c",)
     return Q(name=name, harness="C11_history.c", units=units, models=models, variant=variant,
-             defines=("NOPT=%d" % nopt, "VLEN=%d" % vlen, "V_STR_CAP=%d" % (vlen + 2)), unwind=12,
+             defines=("NOPT=%d" % nopt, "VLEN=%d" % vlen, "V_STR_CAP=%d" % (12 if outputs else vlen + 2)) + (("OUTPUT_TEMPLATE=1",) if outputs else ()), unwind=12,
              unwindset=("strcmp.0:32", "strlen.0:92", "scpy.0:96", "seq.0:96"),
              flags=("--memory-leak-check", "--object-bits", "10"), timeout=timeout, mem_gb=8,
              bounds="%s build; files F1, F2: absent, syntax error, or 0..%d options (any key incl. unknown, duplicates) with values of 0..%d arbitrary bytes; sequence fresh(F2), F1, F2" % (
@@ -32,5 +32,5 @@ def hq(name, variant, nopt, vlen, timeout=900):
 def queries(ctx):
     thorough = ctx["tier"] == "thorough"
     if thorough:
-        return [hq("history_TS", "TS", 3, 5, 3000), hq("history_NTS", "NTS", 3, 5, 3000)]
-    return [hq("history_TS", "TS", 2, 4), hq("history_NTS", "NTS", 2, 4)]
+        return [hq("history_TS", "TS", 3, 5, 3000), hq("history_NTS", "NTS", 3, 5, 3000), hq("history_outputs_TS", "TS", 3, 4, 3000, outputs=True), hq("history_outputs_NTS", "NTS", 3, 4, 3000, outputs=True)]
+    return [hq("history_TS", "TS", 2, 4), hq("history_NTS", "NTS", 2, 4), hq("history_outputs_TS", "TS", 2, 4, outputs=True)]
